@@ -7,3 +7,4 @@ import AJ.Props.C06Mem
 import AJ.Props.C06FExact
 import AJ.Props.C05FMpDeser
 import AJ.Props.C05FDeser
+import AJ.Props.C06FMpExact
